@@ -203,6 +203,10 @@ func genC15(seed uint64, idx int, tier string) *World {
 	b := &Built{N: rq.root}
 	op.IO = &io
 	body := op.IOBody(b, io.BodyKind)
+	if io.BodyKind == "json" && r.P(0.12) {
+		// insignificant white space around the document (RFC 8259 section 2)
+		body = Pick(r, []string{" ", "\n", "\t", "\r\n  "}) + body + Pick(r, []string{"", "\n", " "})
+	}
 	if io.BodyKind != "raw" {
 		// freeze the rendering so that offsets are well defined
 		io.BodyKind, io.Body = "raw", body
